@@ -515,7 +515,8 @@ Proof.
     all: try (intros k; cbn [smap set updop]; rewrite ?In_arem; intros H; try (exfalso; destruct H as [H1 H2]; apply H1; now apply Hk1)).
     all: try (split; [exact R|]; unfold has_doneP; cbn [o_items set close_chan]; intros (r0 & Hr0 & Kr0); try (apply in_app_or in Hr0 as [Hr0|[<-|[]]]; [|congruence]); apply ND; exists r0; now split).
   - destruct (alookup (r_mid r) (rmap s)) as [o|] eqn:Er; intros _.
-    + pose proof (alookup_In _ _ _ Er) as Hin. destruct (l_r s L _ _ Hin) as (c & Hc & M & R & W & NS).
+    + match goal with |- context [if ?b then _ else _] => destruct b end; [apply (Lin_same s); try reflexivity; exact L|].
+      pose proof (alookup_In _ _ _ Er) as Hin. destruct (l_r s L _ _ Hin) as (c & Hc & M & R & W & NS).
       assert (Hnq : ~ In o (opq s)). { intros H. destruct (l_q s L o H) as (c' & _ & _ & Nr & _). exact (Nr _ Hin). }
       assert (Hk1 : forall k, In (k, o) (rmap s) -> k = r_mid r). { intros k H. destruct (l_r s L k o H) as (c' & Hc' & M' & _). congruence. }
       destruct (fill_reply_core (Some r) c) as (f1 & f2 & f3 & f4 & f5).
@@ -1018,7 +1019,8 @@ Proof.
     all: try (exfalso; destruct Hs as [Hs _]; apply Hs; exact M).
     all: cbn; rewrite M; split; [exact Cc|exact Ce].
   - destruct (alookup (r_mid r) (rmap s)) as [o|] eqn:Er.
-    + pose proof (alookup_In _ _ _ Er) as Hin. destruct (l_r s L _ _ Hin) as (c & Hc & M & R & W & NS).
+    + match goal with |- context [if ?b then _ else _] => destruct b end; [apply (Chan_same s); try reflexivity; exact CH|].
+      pose proof (alookup_In _ _ _ Er) as Hin. destruct (l_r s L _ _ Hin) as (c & Hc & M & R & W & NS).
       assert (Hns : forall k, ~ In (k, o) (smap s)). { intros k H. destruct (l_s s L k o H) as (c' & Hc' & _ & _ & _ & _ & IS). rewrite Hc in Hc'. injection Hc' as <-. contradiction. }
       destruct (fill_reply_core (Some r) c) as (f1 & f2 & f3 & f4 & f5).
       match goal with |- Chan ?s' => apply (Chan_upd1 s s' o c (fill_reply (Some r)) CH L Hc) end.
